@@ -45,7 +45,7 @@ def cases(draw):
             c['rel'] = draw(st.sampled_from(['independent', 'k0-bit', 'k1-top-bit']))
             c['bit'] = draw(st.integers(0, 63))
         return c
-    mx = draw(st.one_of(st.integers(4, 300), st.sampled_from([4, 8, 16, 64, 256])))
+    mx = draw(st.one_of(st.integers(4, 300), st.integers(5, 24), st.sampled_from([4, 8, 16, 64, 256])))
     mn = draw(st.one_of(st.just(mx), st.integers(1, mx), st.integers(1, max(1, mx // 16))))
     while not aligned_ok(mn, mx):
         mn -= 1
@@ -57,8 +57,14 @@ def cases(draw):
         c['p2'] = draw(st.integers(0, mx)) * 4
         c['pseed'] = draw(st.integers(0, 999))
         c['pkind'] = draw(st.sampled_from(['prng', 'zeros', 'same']))
-        c['cuts1'] = sorted(draw(st.lists(st.integers(0, n + 4 * mx), max_size=6)))
-        c['cuts2'] = sorted(draw(st.lists(st.integers(0, n + 4 * mx), max_size=6)))
+        def cutlist():
+            if draw(st.booleans()):
+                step = draw(st.sampled_from([1, 1, 2, 3, 5, mx, mx + 1]))
+                step = max(step, (n + 4 * mx) // 600 + 1)
+                return list(range(step, n + 4 * mx, step))
+            return sorted(draw(st.lists(st.integers(0, n + 4 * mx), max_size=6)))
+        c['cuts1'] = cutlist()
+        c['cuts2'] = cutlist()
         c['segmented'] = draw(st.booleans())
     else:
         c['op'] = draw(st.sampled_from(['replace', 'insert', 'delete']))
@@ -92,10 +98,12 @@ def key_of(seed):
     return bytes(k)
 
 
-def boundaries(mn, mx, key, ps):
+def boundaries(mn, mx, key, ps, adapter=None):
     import replicat.utils.adapters as A
     out, pos = [], 0
-    for c in A.gclmulchunker(min_length=mn, max_length=mx)(iter(ps), params=key):
+    if adapter is None:
+        adapter = A.gclmulchunker(min_length=mn, max_length=mx)
+    for c in adapter(iter(ps), params=key):
         pos += len(c)
         out.append(pos)
     return out
@@ -222,8 +230,13 @@ def run_case(case):
         kb = bytearray(k1)
         kb[15] ^= 0x80
         k2 = bytes(kb)
-    b1 = boundaries(mn, W, k1, [S])
-    b2 = boundaries(mn, W, k2, [S])
+    import replicat.utils.adapters as A
+    shared = A.gclmulchunker(min_length=mn, max_length=W)      # one adapter object serves every key it is given
+    b1 = boundaries(mn, W, k1, [S], shared)
+    b2 = boundaries(mn, W, k2, [S], shared)
+    if b2 != boundaries(mn, W, k2, [S]):
+        return Outcome(fail('key-history', f'boundaries for a key depend on which key the same adapter object was given before ({rel})'),
+                       classes + ['keys:' + rel], True)
     classes.append('keys:' + rel)
     if len(b1) < 400:
         return Outcome(fail('harness', 'fewer than 400 chunks'), classes)
